@@ -210,6 +210,39 @@ def graph_search(run, rnd, dates, n_pops):
                                 f"{other} is not {n} x {factor(u, v)} at {date}",
                                 {"date": date, "data": popgen.frame_to_json(df), "node": other,
                                  "expected": exp.tolist()[:50], "observed": cols[other].tolist()[:50]})
+            # a group-level flow column supplied as data (with values that differ from the internal sum):
+            # its other-unit variants must follow the SUPPLIED column
+            okid, ids = run.attempt("group ids", popgen.simulate, df, date,
+                                    targets=["wthh_id", "fg_id", "bg_id", "eg_id", "ehe_id", "sn_id"])
+            if okid:
+                for c in ids.columns:
+                    cols[c] = ids[c].to_numpy()
+            grp = [(n, b, u, a) for n, b, u, a in timed if a and n in nodes and n in cols and cols[n].dtype.kind == "f"]
+            for n, b, u, a in rnd.sample(grp, min(len(grp), 6)):
+                lv = a[1:]
+                gid = cols.get(f"{lv}_id")
+                if gid is None:
+                    continue
+                per = {}
+                supplied = np.asarray([per.setdefault(g, float(x) * 2.0 + 7.0) for g, x in zip(gid, cols[n])])
+                # only variants that are DERIVED (not rules of their own) have to follow the supplied column
+                pairs = [(v, f"{b}{v}{a}") for v in UNITS if v != u and f"{b}{v}{a}" not in functions]
+                if not pairs:
+                    continue
+                others = [o for _, o in pairs]
+                d2 = df.assign(**{n: supplied})
+                ok2, res2 = run.attempt(f"{n} supplied as data, other units requested", popgen.simulate, d2, date, targets=others)
+                if not ok2:
+                    run.broken.pop()
+                    continue
+                run.case({"supplied": n, "date": date, "pop": k})
+                for v, o in pairs:
+                    exp = supplied * float(factor(u, v))
+                    if not popgen.close(res2[o].to_numpy().astype(float), exp, rel=1e-9):
+                        run.hit({"node": o, "kind": "derived-unit-ignores-supplied-column"},
+                                f"{o} at {date} is not {n} x {factor(u, v)} when {n} is supplied in the data",
+                                {"date": date, "data": popgen.frame_to_json(d2), "node": o,
+                                 "expected": exp.tolist()[:30], "observed": res2[o].tolist()[:30]})
             # supplying an input in another time unit gives the same results
             alt = df.drop(columns=["bruttolohn_m"]).assign(bruttolohn_y=df["bruttolohn_m"] * 12.0)
             ok, r1 = run.attempt("default targets", popgen.simulate, df, date)
